@@ -97,3 +97,38 @@ pub fn vx_dyn__clone_boxed__ActorControl(this: &Box<dyn ActorControl>) -> (r: Bo
 #[verifier::external_body]
 pub fn vx_dyn__clone_boxed__WeakActorControl(this: &Box<dyn WeakActorControl>) -> (r: Box<dyn WeakActorControl>)
     ensures r.target() == this.target() { unimplemented!() }
+
+// ---------------------------------------------------------------- deadlock detection helpers (verified, not trusted)
+/// `.lock().unwrap()`: a poisoned lock panics here (the lock is not held in that case)
+#[cfg(feature = "deadlock-detection")]
+pub fn vx_unwrap_lock(r: core::result::Result<Box<HashMap<u64, Identity>>, PoisonError>, w: &mut World) -> (g: Box<HashMap<u64, Identity>>)
+    requires r is Err ==> !old(w).lock_held(),
+    ensures r == Ok::<Box<HashMap<u64, Identity>>, PoisonError>(g), *final(w) == *old(w),
+{
+    match r { Ok(g) => g, Err(_) => vx_panic_site(w) }
+}
+
+/// rule D for `_guard: Option<WaitForGuard>` in ActorRef::ask: Option's drop glue runs the inner Drop impl if Some
+#[cfg(feature = "deadlock-detection")]
+pub fn vx_drop_opt_guard(g: Option<WaitForGuard>, w: &mut World)
+    requires !old(w).lock_held(),
+    ensures guard_dropped(g, *old(w), *final(w)),
+{
+    match g { Some(x) => drop__WaitForGuard(x, w), None => {} }
+}
+
+/// a panic site inside a Drop body that must never panic (a panic while unwinding aborts; a poisoned wait-for lock
+/// must be tolerated): unreachable by contract
+#[verifier::external_body]
+pub fn vx_forbidden_panic(w: &mut World) -> !
+    requires
+        false, /*L:drop_body.never_panics*/
+{ panic!() }
+#[cfg(feature = "deadlock-detection")]
+pub fn vx_unwrap_lock_nopanic(r: core::result::Result<Box<HashMap<u64, Identity>>, PoisonError>, w: &mut World) -> (g: Box<HashMap<u64, Identity>>)
+    requires
+        r is Ok, /*L:drop_body.never_panics*/
+    ensures r == Ok::<Box<HashMap<u64, Identity>>, PoisonError>(g), *final(w) == *old(w),
+{
+    match r { Ok(g) => g, Err(_) => vx_forbidden_panic(w) }
+}
